@@ -116,7 +116,7 @@ func (h *harness) st(name string) *stats {
 func (h *harness) budget(slow bool) (int, int) {
 	if h.r.Thorough() {
 		if slow {
-			return 5000, 5000
+			return 1200, 1200
 		}
 		return 1 << 30, 20000
 	}
@@ -386,6 +386,9 @@ func (h *harness) confirmHang(e *entry, st *stats, in input) {
 		t0 := time.Now()
 		if o := guarded(func() error { return e.call(in) }, longWatchdog); !o.timeout {
 			h.alone.Unlock()
+			h.mu.Lock()
+			h.hangs[key] = true // settled for this (entry, input class): further expiries of the class are only counted
+			h.mu.Unlock()
 			st.mu.Lock()
 			st.Slow++
 			st.mu.Unlock()
